@@ -1,2 +1,206 @@
+"""C02 deep rule R5: EagerModel interpreted on operator skeletons with a model that assigns *symbolic*
+constants to the free symbols (so one run stands for every value of the model).
+
+  get_value(f)                  must be a constant whose value is the reference value of f under the model,
+                                on every path and for every value of the model's constants (small domains,
+                                bit-vectors exhaustively);
+  satisfies(f)                  True exactly when that value is true (Boolean skeletons);
+  model[f], get_py_value(f)     agree with get_value;
+  completion                    with an empty model and model_completion=True the value is the one under the
+                                documented defaults (false, 0, zero bit-vector); with model_completion=False the
+                                call raises or returns a value that holds under every completion.
+"""
+from ..absint import AbsRaise, AObj, ClassRef, Unsupported, SymInt, SymBool
+from ..common import get_repo, parallel_map
+from .. import proc, refsem
+from ..proc import Shape, S, BOOL, INT, REAL
+from .. import simpcheck as sc
+
+EAGER = "pysmt.solvers.eager.EagerModel"
+
+
+def shapes():
+    a, b, c = S("a"), S("b"), S("c")
+    x, y, z = S("x", INT), S("y", INT), S("z", INT)
+    r, s_ = S("r", REAL), S("s", REAL)
+    B3 = ("BV", 3)
+    u, v = S("u", B3), S("v", B3)
+
+    def L(vv, so):
+        return ("lit", vv, so)
+    sh = [
+        ("And", a, ("Or", b, ("Not", c))), ("Iff", a, ("Implies", b, c)), ("Ite", a, b, ("Not", a)),
+        ("LT", ("Plus", x, y), z), ("LE", ("Times", L(2, INT), x), ("Minus", y, z)), ("Equals", ("Ite", a, x, y), z),
+        ("Equals", ("Times", x, y), z), ("LT", ("Plus", r, ("ToReal", x)), s_), ("Equals", ("Div", r, L(2, REAL)), s_),
+        ("And", ("LT", x, y), ("Or", a, ("Equals", y, z))), ("Implies", ("LE", x, L(0, INT)), ("LT", ("Minus", x, L(1, INT)), L(0, INT))),
+        ("BVULT", ("BVAdd", u, v), u), ("Equals", ("BVMul", u, v), ("BVNot", u)), ("BVSLE", ("BVNeg", u), v),
+        ("Equals", ("BVExtract", u, 0, 1), ("BVExtract", v, 1, 2)), ("Equals", ("BVConcat", u, v), ("BVZExt", u, 3)),
+        ("Equals", ("BVUDiv", u, v), ("BVURem", u, v)), ("Equals", ("BVLShl", u, v), ("BVLShr", u, v)),
+        ("Equals", ("BVToNatural", u), x), ("BVSLT", ("BVSExt", u, 1), ("BVSExt", v, 1)),
+        # terms (non Boolean)
+        ("Plus", x, ("Times", L(3, INT), y)), ("Ite", a, r, s_), ("BVXor", u, ("BVRol", v, 1)), ("Minus", ("ToReal", x), r),
+    ]
+    return [Shape(t) for t in sh]
+
+
+def _bool_syms(t, out=None):
+    out = [] if out is None else out
+    if isinstance(t, tuple):
+        if t[0] == "sym":
+            if t[2] == BOOL and t[1] not in out:
+                out.append(t[1])
+        else:
+            for x in t[1:]:
+                _bool_syms(x, out)
+    return out
+
+
+def _model_job(job):
+    shape_t, mode, bvals = job
+    shape = Shape(shape_t)
+    bmap = dict(zip(sorted(_bool_syms(shape_t)), bvals))
+
+    def call(w, it, f):
+        syms = sorted(w.free_symbols(f), key=lambda n: w.npayload(n)[0])
+        asg = {}
+        if mode == "full":
+            for i, sy in enumerate(syms):
+                so = w.nsort(sy)
+                nm = "m%d" % i
+                if so == refsem.BOOL:
+                    asg[sy] = w.bool_const(bmap[w.npayload(sy)[0]])     # Boolean part of the model: enumerated
+                else:
+                    asg[sy] = sc.build(w, ("const", nm, so), [])
+        model = it.instantiate(ClassRef(EAGER), [asg, w.env], {})
+        out = {"syms": syms, "asg": asg}
+        for api in (("get_value", True), ("get_value", False), ("satisfies", None), ("getitem", None), ("py", None)):
+            name, comp = api
+            try:
+                if name == "get_value":
+                    out[api] = ("ret", it.call(it.getattr(model, "get_value"), [f], {"model_completion": comp}))
+                elif name == "satisfies":
+                    if w.nsort(f) != refsem.BOOL:
+                        continue
+                    out[api] = ("ret", it.call(it.getattr(model, "satisfies"), [f]))
+                elif name == "getitem":
+                    out[api] = ("ret", it.call(it.getattr(model, "__getitem__"), [f]))
+                else:
+                    out[api] = ("ret", it.call(it.getattr(model, "get_py_value"), [f]))
+            except AbsRaise as ex:
+                out[api] = ("raise", ex.cls_name)
+        return out
+
+    def post(w, f, out, facts):
+        syms, asg = out["syms"], out["asg"]
+        problems, checked = [], 0
+        undefined = 0
+        # assignments of the symbolic constants; the symbols take the constants' values
+        nodes = [f] + list(asg.values()) + [v[1] for k, v in out.items() if isinstance(k, tuple) and v[0] == "ret" and w.is_node(v[1])]
+        for a in sc.assignments(w, nodes, facts):
+            if not sc.facts_hold(facts, a):
+                continue
+            env = dict(a)
+            try:
+                for sy in syms:
+                    nm = "sym:" + w.npayload(sy)[0]
+                    if sy in asg:
+                        env[nm] = sc.nodeval(w, asg[sy], a)
+                    else:
+                        so = sc.sort_conc(w.nsort(sy), a)
+                        env[nm] = False if so == refsem.BOOL else (0 if so[0] in ("INT", "BV") else 0)
+                        if so == refsem.REAL:
+                            from fractions import Fraction
+                            env[nm] = Fraction(0)
+                want = sc.nodeval(w, f, env)
+            except refsem.Undefined:
+                undefined += 1
+                continue
+            except (refsem.NoSemantics, sc.Malformed) as e:
+                return proc.ProcResult(shape, "unsupported", str(e))
+            checked += 1
+            for api, (st, val) in [(k, v) for k, v in out.items() if isinstance(k, tuple)]:
+                name, comp = api
+                if mode == "empty" and name == "get_value" and comp is False:
+                    continue      # handled below
+                if st == "raise":
+                    if mode == "empty" and name in ("satisfies",):
+                        continue
+                    problems.append("%s%s raises %s under %s" % (name, "" if comp is None else "(model_completion=%s)" % comp, val, sc._show(a)))
+                    continue
+                try:
+                    if name in ("get_value", "getitem"):
+                        if not w.is_node(val) or not w.opname(val).endswith("_CONSTANT"):
+                            problems.append("%s returns the non-constant %s" % (name, sc.node_str(w, val) if w.is_node(val) else val))
+                            continue
+                        got = sc.nodeval(w, val, a)
+                    elif name == "satisfies":
+                        got = sc.ev(val, a) if isinstance(val, (SymInt, SymBool)) else val
+                        if not isinstance(got, bool):
+                            problems.append("satisfies returns %r" % (val,))
+                            continue
+                    else:
+                        got = sc.ev(val, a) if isinstance(val, (SymInt, SymBool)) else val
+                except (refsem.NoSemantics, sc.Malformed) as e:
+                    return proc.ProcResult(shape, "unsupported", str(e))
+                if got != want and not (name == "py" and _same_py(got, want)):
+                    problems.append("%s gives %r under the model %s; the formula denotes %r"
+                                    % (name if comp is None else "%s(model_completion=%s)" % (name, comp), got, sc._show(a), want))
+            if problems:
+                break
+        if mode == "empty":
+            # without completion: an error, or a value that holds under every completion
+            st, val = out[("get_value", False)]
+            if st == "ret" and syms:
+                if not (w.is_node(val) and w.opname(val).endswith("_CONSTANT")):
+                    problems.append("get_value(model_completion=False) returns the non-constant %s" % (sc.node_str(w, val) if w.is_node(val) else val,))
+                else:
+                    for a in sc.assignments(w, [f, val], facts):
+                        try:
+                            if sc.nodeval(w, f, a) != sc.nodeval(w, val, a):
+                                problems.append("get_value(model_completion=False) on an empty model returns %s, but under the "
+                                                "completion %s the formula denotes %r" % (sc.node_str(w, val), sc._show(a), sc.nodeval(w, f, a)))
+                                break
+                        except (refsem.Undefined, refsem.NoSemantics, sc.Malformed):
+                            continue
+        if problems:
+            return proc.ProcResult(shape, "invalid", problems[0])
+        if checked == 0:
+            return proc.ProcResult(shape, "vacuous", "no assignment evaluated")
+        return proc.ProcResult(shape, "valid", "%d model valuations" % checked)
+    res = proc.run_proc(shape, call, post=post, services="full", max_paths=64)
+    tag = repr(shape) + ("" if not bvals else " with " + ", ".join("%s=%s" % kv for kv in sorted(bmap.items())))
+    return [(tag, mode, r.kind, str(r.detail)) for r in res]
+
+
+def _same_py(a, b):
+    try:
+        return a == b
+    except Exception:
+        return False
+
+
 def run(ctx):
-    pass
+    if not ctx.want("R5"):
+        return
+    rs = ctx.rule("R5", "EagerModel: get_value / satisfies / [] / get_py_value equal the reference value under every model (symbolic model constants)")
+    import itertools
+    jobs = []
+    for sh in shapes():
+        nb = len(_bool_syms(sh.t))
+        for bv in itertools.product((False, True), repeat=nb):
+            jobs.append((sh.t, "full", bv))
+        jobs.append((sh.t, "empty", ()))
+    for res in parallel_map(_model_job, jobs):
+        for shape, mode, kind, detail in res:
+            what = "total model" if mode == "full" else "empty model (completion)"
+            if kind == "valid":
+                rs.ok({"skeleton": shape, "model": what, "checked": detail})
+            elif kind == "invalid":
+                ctx.finding(rs, "model|%s|%s" % (shape, mode), "%s, %s: %s" % (shape, what, detail), "pysmt/solvers/eager.py")
+            elif kind == "raises":
+                ctx.finding(rs, "model|%s|%s|raises" % (shape, mode), "%s, %s: raises %s" % (shape, what, detail), "pysmt/solvers/eager.py")
+            elif kind == "vacuous":
+                continue
+            else:
+                rs.unrec("%s (%s): %s" % (shape, what, detail[:160]))
+    ctx.floor(rs, 30)
